@@ -540,6 +540,10 @@ func (s *BaseNodeService) reinitDKG(message storage.Message) error {
 		return fmt.Errorf("failed to umarshal request:  %w", err)
 	}
 
+	if len(req.DKGID) == 0 {
+		return errors.New("reinit DKG request has empty {dkg_id}")
+	}
+
 	roundExist, existErr := s.fsmService.IsExist(req.DKGID)
 	if existErr != nil {
 		return existErr
